@@ -521,7 +521,8 @@ where
         )
       });
     }
-    let mut compression_result = Err(BrotliEncoderThreadError::InsufficientOutputSpace);
+    // Ok until the first failure; a failure is final (later jobs are only joined and freed)
+    let mut compression_result: Result<usize, BrotliEncoderThreadError> = Ok(0usize);
     let mut out_file_size = 0usize;
     let mut bro_cat_li = BroCatli::new();
     for (index, thread) in alloc_per_thread.iter_mut().enumerate() {
@@ -548,25 +549,29 @@ where
         };
         match cur_result.compressed {
             Ok(compressed_out) => {
-                bro_cat_li.new_brotli_file();
-                let mut in_offset = 0usize;
-                let cat_result = bro_cat_li.stream(
-                    &compressed_out.data_backing.slice()[..compressed_out.data_size],
-                    &mut in_offset,
-                    output,
-                    &mut out_file_size,
-                );
-                match cat_result {
-                    BroCatliResult::Success | BroCatliResult::NeedsMoreInput => {
-                        compression_result = Ok(out_file_size);
-                    }
-                    BroCatliResult::NeedsMoreOutput => {
-                        compression_result = Err(BrotliEncoderThreadError::InsufficientOutputSpace);
-                        // not enough space
-                    }
-                    err => {
-                        compression_result = Err(BrotliEncoderThreadError::ConcatenationError(err));
-                        // misc error
+                if compression_result.is_ok() {
+                    bro_cat_li.new_brotli_file();
+                    let mut in_offset = 0usize;
+                    let cat_result = bro_cat_li.stream(
+                        &compressed_out.data_backing.slice()[..compressed_out.data_size],
+                        &mut in_offset,
+                        output,
+                        &mut out_file_size,
+                    );
+                    match cat_result {
+                        BroCatliResult::Success | BroCatliResult::NeedsMoreInput => {
+                            compression_result = Ok(out_file_size);
+                        }
+                        BroCatliResult::NeedsMoreOutput => {
+                            compression_result =
+                                Err(BrotliEncoderThreadError::InsufficientOutputSpace);
+                            // not enough space
+                        }
+                        err => {
+                            compression_result =
+                                Err(BrotliEncoderThreadError::ConcatenationError(err));
+                            // misc error
+                        }
                     }
                 }
                 <Alloc as Allocator<u8>>::free_cell(
@@ -575,7 +580,9 @@ where
                 );
             }
             Err(e) => {
-                compression_result = Err(e);
+                if compression_result.is_ok() {
+                    compression_result = Err(e);
+                }
             }
         }
         thread.0 = InternalSendAlloc::A(cur_result.alloc, UnionHasher::Uninit);
